@@ -1206,6 +1206,13 @@ def reassign_history(r, nan, builtin):
         env["*"] = Rec("arith", "*", 5.0, "L")
         env["^"] = Rec("arith", "^", 6.0, "R")
         env["max"] = Rec("arith", "max", 0.0, "L")
+        if core.script_mode():
+            # the static pass of the script pipeline resolves a builtin's name to its current value wherever
+            # the script has not (yet) written to that name; the later `swap +, *` of this history is only
+            # visible to the closures if the names count as variables of the script before the closures are
+            # defined, which a self-swap achieves without changing anything
+            stmts.append("; ".join("swap %s, %s" % (nm, nm) for nm in names))
+            checks.append(None)
     else:
         names = []
         for j in range(3):
